@@ -191,6 +191,12 @@ def make_specs():
     for sp in c16.make_specs():   # FIFO / no-loss of the observer's event queue
         sp.prop = PROP
         specs.append(sp)
+    # 'nobody else': which handler set an event goes to is decided by watch identity (path, recursive flag, filter)
+    WW = c13.WatchWorld()
+    for n in ("key", "__eq__"):
+        s2 = c13.WatchSpec(WW, n)
+        s2.prop = PROP
+        specs.append(s2)
     return specs
 
 
@@ -208,3 +214,10 @@ TRUSTED = c13.TRUSTED + ["E6 queue.Queue: get() returns one item previously put 
 ASSUMPTIONS = ["rely/guarantee: between lock holds other threads may change the registry arbitrarily within the class invariant; the dispatch loop reads it only while holding the lock (proved: every protected access has a lock-held obligation)",
                "start() is assumed not concurrent with other API calls"]
 UNDECIDED_PARTS = ["'events of one watch arrive in the order they were queued' and coalescing are the queue's contract (C16) composed with E6, not re-proved here", "liveness (a queued event is eventually dispatched) is not a safety obligation"]
+
+
+def lemmas():
+    """structural facts the queue contracts rest on (C16's): event equality, and that the observer's queue adds nothing to
+    the verified SkipRepeatsQueue"""
+    from specs import c16
+    return c16.lemmas()
